@@ -75,9 +75,21 @@ def cases(tier, seed):
             yield {"c": [a, b, N]}
 
 
+NEUTRAL_SETS = ["ACGT", "G", "GS", "ACGTN", "HC", "ACG", "QN", "ACGTSYMWHVN", "P", "TGCA"]
+
+
 def realise(rng, a, b, N):
     pat = [1] * a + [-1] * b + [0] * (N - a - b)
     rng.shuffle(pat)
+    z = N - a - b
+    if (a + b == 0 or rng.random() < 0.1) and z >= 1:
+        # neutral residues drawn from a few letters only (every one of them present when there is room): uncharged and weakly
+        # charged chains written in the alphabets of other kinds of record
+        letters = NEUTRAL_SETS[(N + a) % len(NEUTRAL_SETS)]
+        fill = list(letters[:z]) + [rng.choice(letters) for _ in range(max(0, z - len(letters)))]
+        rng.shuffle(fill)
+        it = iter(fill)
+        return "".join(rng.choice("KR") if q > 0 else (rng.choice("DE") if q < 0 else next(it)) for q in pat)
     if rng.random() < 0.12:
         return gen.spell(rng, pat, neut="H")          # every neutral residue a histidine
     return gen.spell(rng, pat)
